@@ -92,7 +92,9 @@ class C18(Prop):
                 "Wheatley.C18.accepted_call_converts",
                 "Wheatley.C18.startRow_accepts_iff",
                 "Wheatley.C18.pyInt_numeral",
-                "Wheatley.C18.pealSpeed_value"]
+                "Wheatley.C18.pealSpeed_value",
+                "Wheatley.C18.pn_never_fails",
+                "Wheatley.C18.accepted_notation_rings"]
     level_text = ("theorems (for every interpretation of Python's digit and white-space tables): the parsers are "
                   "total and never leave their own error class - in particular int() cannot fail after the "
                   "isdecimal() test; parse_peal_speed of a rendered 'XhYY'/'NNN' value gives 60X+YY; valid_pn implies "
